@@ -3,6 +3,8 @@ C03 — expiry and revocation are final and cascade to every endpoint.
 Property theorems about the provider core model (Model/Provider.lean).
 -/
 import IdpyVerif.Proofs.Provider
+import IdpyVerif.Proofs.Scope
+import IdpyVerif.Proofs.Cascade
 namespace Idpy.Props.C03
 open Idpy Idpy.Provider
 
@@ -343,6 +345,63 @@ theorem revoke_token_kills (cfg : Cfg) (s : St) (tok : Nat) (rec : Bool) (hi : I
   split at ht'
   · exact key _ base _ _ _ t' ht' hid'
   · exact base t' ht' hid'
+
+theorem fwd_updTok (toks : List Tok) (id : Nat) (f : Tok → Tok) (hf : ∀ t, Keeps t (f t)) : Fwd toks (updTok toks id f) := by
+  intro x hx
+  refine ⟨_, List.mem_map.mpr ⟨x, hx, rfl⟩, ?_⟩
+  split
+  · exact hf x
+  · exact Keeps.refl x
+
+theorem desc_mem {toks : List Tok} {gid v : Nat} {d : Tok} (hd : Desc toks gid v d) : d ∈ toks := by
+  induction hd with
+  | child h _ _ => exact h
+  | via _ _ _ _ ih => exact ih
+
+/-- **revocation reaches every derived token**: in every reachable state (`SInv`, proved for all
+    histories by `run_sinv`), revoking token `tok` recursively leaves dead every token derived from
+    it inside its grant through ANY number of `based_on` links -/
+theorem revoke_token_cascades (cfg : Cfg) (s : St) (tok : Nat) (hs : SInv s)
+    (t : Tok) (ht : t ∈ s.toks) (hid : t.id = tok)
+    (d : Tok) (hd : Desc s.toks t.gid tok d) :
+    Dead (step cfg s (.revokeTok tok true)).1 d.id := by
+  have hi := hs.inv
+  have hdm : d ∈ s.toks := desc_mem hd
+  have ha := step_adv cfg s (.revokeTok tok true)
+  have hi' := ha.inv hi
+  refine ⟨Nat.lt_of_lt_of_le (inv_lt hi hdm) ha.next, ?_⟩
+  intro t' ht' hid'
+  left
+  have hblt : BLt s.toks := fun x hx => (hs.lt x hx).2
+  have hn := desc_within_length hblt hd
+  have hf : findTok s tok = some t := hid ▸ findTok_of_mem hi ht
+  have hfw := fwd_updTok s.toks tok (fun x => { x with revoked := true }) (fun t => keeps_revoke t)
+  obtain ⟨d1, _, k1, hd1⟩ := DescN.transport hfw hn
+  have hlen : (updTok s.toks tok (fun x => { x with revoked := true })).length = s.toks.length := by simp [updTok]
+  have hd2 := DescN.mono (m := (updTok s.toks tok (fun x => { x with revoked := true })).length + 1) (by omega) hd1
+  obtain ⟨y, hy, k2, hrev⟩ := revokeBasedOn_reaches _ _ _ _ _ hd2
+  have hst : (step cfg s (.revokeTok tok true)).1.toks =
+      revokeBasedOn ((updTok s.toks tok (fun x => { x with revoked := true })).length + 1)
+        (updTok s.toks tok (fun x => { x with revoked := true })) t.gid tok := by
+    simp [step, hf]
+  rw [hst] at ht'
+  have hy' : y ∈ (step cfg s (.revokeTok tok true)).1.toks := by rw [hst]; exact hy
+  have ht'' : t' ∈ (step cfg s (.revokeTok tok true)).1.toks := by rw [hst]; exact ht'
+  have : t' = y := inv_uniq hi' ht'' hy' (by rw [hid', k2.id, k1.id])
+  rw [this]; exact hrev
+
+/-- … for every state the provider can reach -/
+theorem revoke_token_cascades_reachable (cfg : Cfg) (ops : List Op) (tok : Nat)
+    (t : Tok) (ht : t ∈ (run cfg {} ops).1.toks) (hid : t.id = tok)
+    (d : Tok) (hd : Desc (run cfg {} ops).1.toks t.gid tok d) :
+    Dead (step cfg (run cfg {} ops).1 (.revokeTok tok true)).1 d.id :=
+  revoke_token_cascades cfg _ tok (run_sinv cfg ops {} sinv_init) t ht hid d hd
+
+/-- non-vacuity: an access token two links below a code -/
+def demoTok (id : Nat) (cls : Cls) (b : Option Nat) : Tok :=
+  { id := id, gid := 7, cls := cls, basedOn := b, used := 0, maxUsage := none, mints := [], revoked := false, exp := 0, scope := [] }
+example : Desc [demoTok 0 .code none, demoTok 1 .refresh (some 0), demoTok 2 .access (some 1)] 7 0 (demoTok 2 .access (some 1)) :=
+  .via (u := demoTok 1 .refresh (some 0)) (by simp) rfl rfl (.child (by simp) rfl rfl)
 
 /-- locality: revoking a grant leaves every token of every other grant exactly as it was -/
 theorem revoke_grant_is_local (cfg : Cfg) (s : St) (gid : Nat) (t : Tok) (hne : t.gid ≠ gid) :
